@@ -39,6 +39,21 @@ MUTATIONS = {
              "self.complexities[x['head']['predicate_name']]))",
              "self.parsed_rules = list(self.parsed_rules)",
              'rules are inferred in textual order (no sort by complexity)'),
+    'firstruledeps': (TI + 'infer.py',
+                      "    result[p] = list(set(sorted(set(ds) - set([p]))) | "
+                      "set(result.get(p, [])))",
+                      "    if p not in result:\n      result[p] = "
+                      "list(set(sorted(set(ds) - set([p]))))",
+                      'dependencies of a predicate taken from its first rule '
+                      'only (rule-order dependence)'),
+    'nocopy': (TI + 'infer.py',
+               "      copy = copier.CopyConcreteOrReferenceType\n"
+               "      if output_value:",
+               "      copy = copier.CopyConcreteOrReferenceType\n"
+               "      if predicate_name not in types_of_builtins.TypesOfBultins():\n"
+               "        copy = lambda t: t\n"
+               "      if output_value:",
+               'call sites of user predicates write into the callee signature'),
     'listsig': (TI + 'types_of_builtins.py',
                 "        'List': {\n            0: e,\n            'logica_value': list_of_e",
                 "        'List': {\n            0: e,\n            'logica_value': e",
